@@ -513,3 +513,297 @@ def natural_units(draw, sub, magnitude_base):
     good = [p for p in PREFIX_LIST if val > 0 and 0.1 <= val / prefix_f(p) < 1e6]
     p = draw(st.sampled_from(good if (good and draw(st.integers(0, 4))) else PREFIX_LIST))
     return p + fam
+
+
+# ------------------------------------------------------------------------------------------------ recipe halves of E1 properties
+
+def _prog_case(prog, extra=None):
+    c = {'program': True, 'subs': prog['subs'], 'objects': prog['objects'], 'steps': prog['steps']}
+    if extra:
+        c.update(extra)
+    return c
+
+
+def _run_programs(col, pp, check, n_quick, n_thorough, prof, tag):
+    from harness import core
+    from hypothesis import given
+    cfg = RefCfg()
+
+    def t():
+        @given(st.data())
+        def test(data):
+            core.env.clear_caches()
+            prog = gen_program(data.draw, pp, cfg, prof)
+            check(col, pp, cfg, prog)
+        return test
+    core.run_property(col, t, core.budget(n_quick, n_thorough, col.tier), tag=tag)
+
+
+# ---- C04: objects handed to a recipe are unchanged by declaring, adding steps and baking -----------------------
+
+def check_c04(col, pp, cfg, prog):
+    from checks.c04 import diff_path, field_of
+    col.case()
+    col.label('recipe')
+    world = bench.World(pp, subs_json=prog['subs'])
+    rr = run_recipe(pp, world.real, prog)
+    outcome = 'add-raised' if rr.add_exc else 'bake-raised' if rr.bake_exc else 'baked'
+    col.label(f"recipe:{outcome}")
+    for label, obj, before in rr.fingerprints:
+        d = diff_path(before, bench.view(obj, pp))
+        if d:
+            col.report(f"recipe/{label.split(':')[0]}-object-changed/{outcome}", {'object': label, 'path': d,
+                                                                                  'field': field_of(d)}, _prog_case(prog))
+    if rr.fingerprints and outcome != 'baked':
+        col.nontrivial_key(f"recipe|{outcome}|{'+'.join(sorted({s['op'] for s in real_steps(prog)}))}")
+    elif len(rr.slices) >= 1:
+        col.nontrivial_key(f"recipe|baked|slices{min(len(rr.slices), 3)}|{'+'.join(sorted({s['op'] for s in real_steps(prog)}))}")
+        col.sample(lambda: {'objects': prog['objects'], 'steps': prog['steps']})
+
+
+def run_c04(col, pp):
+    _run_programs(col, pp, check_c04, 100, 1500, {'max_steps': 10, 'max_dim': 3}, 'recipe')
+
+
+def replay_c04(col, pp, case):
+    check_c04(col, pp, RefCfg(), case)
+
+
+# ---- C03: baked results satisfy the state invariant ------------------------------------------------------------
+
+def check_c03(col, pp, cfg, prog):
+    from checks.c03 import Feasible
+    col.case()
+    col.label('recipe')
+    world = bench.World(pp, subs_json=prog['subs'])
+    rr = run_recipe(pp, world.real, prog)
+    if rr.results is None:
+        exc = rr.add_exc[1] if rr.add_exc else rr.bake_exc
+        col.label(f"recipe-refused:{type(exc).__name__}")
+        return
+    mon = Feasible(col)
+    for key, obj in rr.results.items():
+        v = bench.view(obj, pp)
+        for _, w in wells_of(v):
+            bad = mon.invariant(world, w)
+            if bad:
+                col.report(f"state/bake/{bad[0]}", {'object': key, 'vessel': w['name'], 'what': bad[1]}, _prog_case(prog))
+                break
+    col.nontrivial_key(f"recipe|baked|{'+'.join(sorted({s['op'] for s in real_steps(prog)}))}")
+
+
+def run_c03(col, pp):
+    prof = {'max_steps': 10, 'max_dim': 3, 'q_modes': ['frac'] * 6 + ['over', 'whole', 'zero', 'neg'],
+            'fill_modes': ['fit'] * 6 + ['below', 'over', 'zero', 'neg'], 'keep_failing': True}
+    _run_programs(col, pp, check_c03, 100, 1500, prof, 'recipe')
+
+
+def replay_c03(col, pp, case):
+    check_c03(col, pp, RefCfg(), case)
+
+
+# ---- C17: amounts removed in a recipe are what usage tracking reports as discarded ----------------------------------
+
+def isolate_removes(prog):
+    """put every remove step into a stage of its own (drops the generated stage markers)"""
+    steps = []
+    n = 0
+    for s in real_steps(prog):
+        if s['op'] == 'remove':
+            n += 1
+            steps += [{'op': 'start_stage', 'name': f"rm{n}"}, s, {'op': 'end_stage', 'name': f"rm{n}"}]
+        else:
+            steps.append(s)
+    return dict(prog, steps=steps)
+
+
+def check_c17(col, pp, cfg, prog):
+    from refchem.model import split_unit, prefix_f
+    prog = isolate_removes(prog)
+    pair = baked_pair(col, pp, prog)
+    if pair is None:
+        return
+    world, eager, rr = pair
+    ref = world.ref
+    steps = real_steps(prog)
+    stages = stages_of(prog)
+    keys = sorted(eager.env.keys())
+    for nm, (s0, s1) in stages.items():
+        if not nm.startswith('rm'):
+            continue
+        step = steps[s0]
+        key = step['obj']['o']
+        removed = removed_amounts(world, prog, eager, s0)
+        others = [k for k in keys if k != key and eager.created_at.get(k, -1) <= s0]
+        is_plate = eager.snapshots[s0][key]['k'] == 'p'
+        partial = step['obj'].get('sel', {'t': 'plate'})['t'] not in ('plate', 'all')
+        tag = ('plate-slice' if partial else 'plate') if is_plate else 'container'
+        col.label('recipe')
+        for name, amt in removed.items():
+            col.case()
+            sub = ref.subs[name]
+            si = world.by_name[name]
+            fam = 'U' if sub.enzyme else 'mol'
+            val = amt
+            unit = 'U' if sub.enzyme else next((p + 'mol' for p in ('', 'm', 'u', 'n') if val / prefix_f(p) >= 0.1), 'nmol')
+            p = cfg.precision(unit)
+            want = amt / prefix_f(split_unit(unit)[0])
+            tol = 0.5 * 10 ** -p * 1.000001 + 8 * ref.grain_base(name) / prefix_f(split_unit(unit)[0]) + 1e-9 * want
+            case = _prog_case(prog, {'focus': {'stage': nm, 'substance': name}})
+            if others:
+                try:
+                    got = rr.recipe.get_substance_used(world.real[si], nm, unit, [rr.decl[others[0]]])
+                    if abs(got - want) > tol:
+                        col.report(f"recipe/remove/{tag}/discarded-amount-wrong/substance_used",
+                                   {'got': got, 'expected': want, 'unit': unit}, case)
+                except Exception as e:  # noqa
+                    col.report(f"recipe/remove/{tag}/substance_used-raised:{type(e).__name__}", {'exc': repr(e)[:160]}, case)
+            col.nontrivial_key(f"{'class' if 'cls' in step['what'] else 'substance'}|{tag}|recipe|{sub.kind}")
+        # outflow of the object itself over the remove stage == everything removed, in volume
+        try:
+            flows = rr.recipe.get_container_flows(rr.decl[key], nm, 'nL')
+            import numpy
+            out_total = float(numpy.sum(flows['out']))
+            in_total = float(numpy.sum(flows['in']))
+            want = sum(a * ref.subs[n].factor('L') for n, a in removed.items()) / 1e-9
+            nw = len(wells_of(eager.snapshots[s0][key]))
+            tol = nw * (0.5 * 10 ** -cfg.precision('nL')) * 1.001 + 1e-9 * want + 1e-3
+            if abs(out_total - want) > tol or abs(in_total) > tol:
+                col.report(f"recipe/remove/{tag}/discarded-amount-wrong/container_flows",
+                           {'out': out_total, 'in': in_total, 'expected_out': want},
+                           _prog_case(prog, {'focus': {'stage': nm}}))
+        except Exception as e:  # noqa
+            col.report(f"recipe/remove/{tag}/container_flows-raised:{type(e).__name__}", {'exc': repr(e)[:160]},
+                       _prog_case(prog, {'focus': {'stage': nm}}))
+        col.sample(lambda: {'steps': prog['steps'], 'stage': nm, 'removed': removed})
+
+
+def run_c17(col, pp):
+    prof = {'max_steps': 8, 'max_dim': 3, 'keep_failing': False, 'stages': False, 'dilute_new_name': False,
+            'weights': {'remove': 8, 'transfer': 8, 'dilute': 0, 'solution_from': 0}}
+    _run_programs(col, pp, check_c17, 100, 1500, prof, 'recipe')
+
+
+def replay_c17(col, pp, case):
+    check_c17(col, pp, RefCfg(), case)
+
+
+# ---- C19: recipe step instructions ---------------------------------------------------------------------------------------
+
+def check_c19(col, pp, cfg, prog):
+    import re
+    from checks.c19 import shown_ok, NUM, decade
+    from refchem.model import split_unit, prefix_f
+    pair = baked_pair(col, pp, prog)
+    if pair is None:
+        return
+    world, eager, rr = pair
+    ref = world.ref
+    steps = real_steps(prog)
+    for i, (s, rs) in enumerate(zip(steps, rr.recipe.steps)):
+        k = s['op']
+        text = rs.instructions
+        case = _prog_case(prog, {'focus': {'step': i}})
+        if k == 'transfer':
+            col.case()
+            col.label('tmpl:recipe-transfer')
+            m = re.match(r"^Transfer (.+?) from '(.+)' to '(.+)'\.$", re.sub(r'\s+', ' ', text))
+            if not m or m.group(1) != s['q']:
+                col.report('recipe-step/transfer/does-not-echo-request', {'text': text[:160], 'q': s['q']}, case)
+            elif not (m.group(2).startswith(s['src']['o']) and m.group(3).startswith(s['dst']['o'])):
+                col.report('recipe-step/transfer/wrong-names', {'text': text[:160]}, case)
+            continue
+        if k not in ('dilute', 'fill_to'):
+            continue
+        solvent = world.subs[s['solvent']]
+        key = s['obj'] if k == 'dilute' else s['obj']['o']
+        before, after = eager.snapshots[i][key], eager.snapshots[i + 1][key]
+        added = []
+        for (c, wb), (_, wa) in zip(wells_of(before), wells_of(after)):
+            added.append((c, (world.base(wa).get(solvent.name, 0.0) - world.base(wb).get(solvent.name, 0.0))
+                          * solvent.factor('L')))
+        extra = 8 * ref.grain_base(solvent.name) * solvent.factor('L')
+        if before['k'] == 'c':
+            col.case()
+            col.label(f"tmpl:recipe-{k}")
+            if k == 'dilute':
+                m = re.search(rf"by adding ({NUM}) (\S+) of '{re.escape(solvent.name)}'\.$", text)
+            else:
+                m = re.search(rf"^Fill '{re.escape(key)}' with '{re.escape(solvent.name)}' up to .+ by adding ({NUM}) (\S+)\.$", text)
+            if not m:
+                if k == 'dilute' and abs(added[0][1]) <= extra:
+                    continue
+                col.report(f"recipe-step/{k}/text-not-of-documented-form", {'text': text[:200]}, case)
+                continue
+            ok, true_shown = shown_ok(cfg, float(m.group(1)), m.group(2), added[0][1], extra_abs=extra)
+            if not ok:
+                col.report(f"recipe-step/{k}/container/wrong-amount", {'shown': f"{m.group(1)} {m.group(2)}",
+                                                                       'true_in_shown_unit': true_shown}, case)
+            col.nontrivial_key(f"recipe-{k}|container|{m.group(2)}|{decade(added[0][1])}")
+            col.sample(lambda: {'step': s, 'text': text})
+            continue
+        # plate form of fill_to: "... by adding: 5.0 uL to [A1:A3, B2], 2.0 uL to [C1]."
+        col.case()
+        col.label('tmpl:recipe-fill-plate')
+        rows, cols = before['rows'], before['cols']
+        label = {}
+        ambiguous = False
+        for r, rn in enumerate(rows):
+            for c, cn in enumerate(cols):
+                if rn + cn in label:
+                    ambiguous = True
+                label[rn + cn] = (r, c)
+        m = re.match(rf"^Fill '.+' with '{re.escape(solvent.name)}' up to .+ by adding: (.*)\.$", text, re.S)
+        if not m or ambiguous:
+            if not ambiguous:
+                col.report("recipe-step/fill_to/plate/text-not-of-documented-form", {'text': text[:200]}, case)
+            continue
+        stated = {}
+        bad = False
+        for am in re.finditer(rf"({NUM}) (\S+) to \[([^\]]*)\]", m.group(1)):
+            val, unit = float(am.group(1)), am.group(2)
+            for item in am.group(3).split(', '):
+                ends = item.split(':')
+                if any(e not in label for e in ends):
+                    bad = True
+                    continue
+                (r0, c0), (r1, c1) = label[ends[0]], label[ends[-1]]
+                for r in range(r0, r1 + 1):
+                    for c in range(c0, c1 + 1):
+                        if (r, c) in stated:
+                            bad = True
+                        stated[(r, c)] = (val, unit)
+        if bad:
+            col.report("recipe-step/fill_to/plate/well-list-unreadable-or-duplicated", {'text': text[:240]}, case)
+            continue
+        unit_any = next(iter(stated.values()))[1] if stated else None
+        for c, vol in added:
+            if c in stated:
+                val, unit = stated[c]
+                ok, true_shown = shown_ok(cfg, val, unit, vol, extra_abs=extra)
+                if not ok:
+                    col.report("recipe-step/fill_to/plate/wrong-amount", {'well': list(c), 'shown': f"{val} {unit}",
+                                                                          'true_in_shown_unit': true_shown}, case)
+                    break
+            elif unit_any is not None:
+                # a well that is not listed must have received (what rounds to) nothing
+                ok, true_shown = shown_ok(cfg, 0.0, unit_any, vol, extra_abs=extra)
+                if not ok:
+                    col.report("recipe-step/fill_to/plate/well-not-listed", {'well': list(c), 'true_in_unit': true_shown,
+                                                                             'unit': unit_any}, case)
+                    break
+            elif vol > extra and vol / 1e-6 >= 0.5:
+                col.report("recipe-step/fill_to/plate/no-amounts-stated", {'well': list(c), 'added_uL': vol / 1e-6}, case)
+                break
+        col.nontrivial_key(f"recipe-fill|plate|{unit_any}|{len(stated)}")
+        col.sample(lambda: {'step': s, 'text': text})
+
+
+def run_c19(col, pp):
+    prof = {'max_steps': 8, 'max_dim': 3, 'keep_failing': False, 'dilute_new_name': False,
+            'weights': {'fill_to': 8, 'dilute': 6, 'transfer': 8, 'remove': 1}}
+    _run_programs(col, pp, check_c19, 100, 1500, prof, 'recipe')
+
+
+def replay_c19(col, pp, case):
+    check_c19(col, pp, RefCfg(), case)
